@@ -775,7 +775,7 @@ func RuleTP1(c *Ctx) {
 
 // RuleRV1: the validation stage looks at every response, not at a chosen one.
 func RuleRV1(c *Ctx) {
-	sc := c.Run.Begin("RV1", "in the validation stage every use of an interaction's Responses is a range over all of them (a check that indexes one response lets the others through unchecked)", 2)
+	sc := c.Run.Begin("RV1", "every loop over an interaction's Responses in core visits all of them (no success return or break inside), and in the validation stage every use of Responses is such a loop (a check that indexes one response lets the others through unchecked)", 4)
 	defer sc.End()
 	pk := c.P.Pkg("core")
 	resp := c.Field("catalog", "HTTPInteraction", "Responses")
@@ -787,6 +787,49 @@ func RuleRV1(c *Ctx) {
 	validate := later[len(later)-1]
 	info := pk.TypesInfo
 	n := 0
+	// every range over the responses, anywhere in core, visits all of them: no success
+	// return and no break inside the loop body
+	c.P.Funcs(func(p *pkgT, fd *ast.FuncDecl) {
+		if p != pk {
+			return
+		}
+		ast.Inspect(fd.Body, func(x ast.Node) bool {
+			rs, ok := x.(*ast.RangeStmt)
+			if !ok {
+				return true
+			}
+			sel, ok := ast.Unparen(rs.X).(*ast.SelectorExpr)
+			if !ok || info.ObjectOf(sel.Sel) != resp {
+				return true
+			}
+			n++
+			key := fmt.Sprintf("all:%s#%d", c.P.DeclName(fd), n)
+			bad := ""
+			ast.Inspect(rs.Body, func(y ast.Node) bool {
+				switch s := y.(type) {
+				case *ast.FuncLit:
+					return false
+				case *ast.ReturnStmt:
+					if len(s.Results) == 0 {
+						bad = "bare return at " + c.P.Pos(s.Pos())
+					} else if tv, has := info.Types[s.Results[len(s.Results)-1]]; has && tv.IsNil() {
+						bad = "return nil at " + c.P.Pos(s.Pos())
+					}
+				case *ast.BranchStmt:
+					if s.Tok.String() == "break" {
+						bad = "break at " + c.P.Pos(s.Pos())
+					}
+				}
+				return true
+			})
+			if bad == "" {
+				sc.Holds(key, c.P.Pos(rs.Pos()), "the loop body leaves early only with an error")
+			} else {
+				sc.Violation(key, c.P.Pos(rs.Pos()), "the loop over all responses of an interaction is left early with success ("+bad+"): the remaining responses are neither processed (allOf inheritance, header checks) nor validated")
+			}
+			return true
+		})
+	})
 	for _, f := range reachStatic(c.P, pk, []*types.Func{validate}) {
 		fd := c.P.Decl(f)
 		ranged := map[ast.Expr]bool{}
